@@ -206,8 +206,11 @@ func escChar(c int, inClass bool) string {
 	return string(rune(c))
 }
 
-func (pr *printer) class(n Node) {
-	if !n.Neg && len(n.Rs) == 1 && n.Rs[0][0] == n.Rs[0][1] {
+func (pr *printer) class(n Node) { pr.classForm(n, false) }
+
+// classForm prints a chr node; a node with a kid is a class with a subtraction [base-[sub]]
+func (pr *printer) classForm(n Node, force bool) {
+	if !force && len(n.Kids) == 0 && !n.Neg && len(n.Rs) == 1 && n.Rs[0][0] == n.Rs[0][1] {
 		pr.sb.WriteString(escChar(n.Rs[0][0], false))
 		return
 	}
@@ -221,6 +224,10 @@ func (pr *printer) class(n Node) {
 			pr.sb.WriteString("-")
 			pr.sb.WriteString(escChar(r[1], true))
 		}
+	}
+	if len(n.Kids) > 0 {
+		pr.sb.WriteString("-")
+		pr.classForm(pr.p[n.Kids[0]-1], true)
 	}
 	pr.sb.WriteString("]")
 }
